@@ -260,8 +260,9 @@ func (c *Client) LocalAddr() string { return c.conn.LocalAddr().String() }
 // Barrier proves that the proxy's event loop completed at least k rounds:
 // k PING/PONG round trips on a dedicated witness connection.
 type Witness struct {
-	c *Client
-	n int
+	mu sync.Mutex
+	c  *Client
+	n  int
 }
 
 func NewWitness(addr string) (*Witness, error) {
@@ -277,6 +278,8 @@ var pingReq = Req("PING")
 // Barrier performs k round trips; error when the proxy does not answer
 // within the watchdog.
 func (w *Witness) Barrier(k int, watchdog time.Duration) error {
+	w.mu.Lock()
+	defer w.mu.Unlock()
 	for i := 0; i < k; i++ {
 		if err := w.c.Send(pingReq); err != nil {
 			return fmt.Errorf("witness send: %v", err)
